@@ -767,6 +767,236 @@ Proof.
   eapply emits_cons0; [apply dname_run; exact Hname|]. eapply emits_cons0; [ssingle|]. eapply emits_app0; [apply C1|]. schain.
 Qed.
 
+(* ---- messages ---- *)
+Inductive mq_ok : node -> Prop :=
+| mq_raw p t : stmt_chk fmt fk (NRawText p t) = true -> mq_ok (NRawText p t)
+| mq_ph p nm bd : stmt_chk fmt fk bd = true -> mq_ok (NMsgPlaceholder p nm bd)
+| mq_plural p vn v cases dflt : oke v = true -> Forall mq_ok cases -> Forall mq_ok dflt -> mq_ok (NMsgPlural p vn v cases dflt)
+| mq_case p z body : Forall mq_ok body -> mq_ok (NMsgPluralCase p z body)
+| mq_list p l : Forall mq_ok l -> mq_ok (NList p l)
+| mq_other n : match n with NRawText _ _ | NMsgPlaceholder _ _ _ | NMsgPlural _ _ _ _ _ | NMsgPluralCase _ _ _ | NList _ _ => False | _ => True end -> mq_ok n.
+
+Lemma mq_chk_ok f : forall n, mq_chk oke (stmt_chk fmt fk) f n = true -> mq_ok n.
+Proof.
+  induction f as [|f IH]; intros n H; [discriminate H|].
+  assert (IHl : forall l, forallb (mq_chk oke (stmt_chk fmt fk) f) l = true -> Forall mq_ok l).
+  { intros l Hl. rewrite forallb_forall in Hl. apply Forall_forall. intros x Hx. apply IH. apply Hl. exact Hx. }
+  destruct n; cbn [mq_chk] in H; try (apply mq_other; exact I).
+  - apply mq_list. apply IHl. exact H.
+  - apply mq_raw. exact H.
+  - apply mq_ph. exact H.
+  - apply andb_prop in H. destruct H as [H H3]. apply andb_prop in H. destruct H as [H1 H2]. apply mq_plural; auto.
+  - apply mq_case. apply IHl. exact H.
+Qed.
+
+Definition spost (st st' : jstate) (cs : list chunk) : Prop :=
+  ext st st' cs /\ stmtC fmt cs /\ scope_ok (j_scope st') /\ j_buf st' = j_buf st /\ called_ok fmt st'.
+Lemma spost_nil st : scope_ok (j_scope st) -> called_ok fmt st -> spost st st [].
+Proof. intros Hs Hk. split; [apply ext_refl; reflexivity|]. split; [apply stmtC_nil|auto]. Qed.
+Lemma spost_trans st st1 st2 c1 c2 : spost st st1 c1 -> spost st1 st2 c2 -> spost st st2 (c1 ++ c2).
+Proof.
+  intros (E1 & C1 & S1 & B1 & K1) (E2 & C2 & S2 & B2 & K2). split; [eapply ext_trans; eauto|]. split; [apply stmtC_app; assumption|].
+  split; [exact S2|]. split; [congruence|exact K2].
+Qed.
+
+Lemma children_post fuel : forall l st st', Forall mq_ok l -> scope_ok (j_scope st) -> called_ok fmt st -> buf_ok (j_buf st) ->
+  jmsg_children w fuel l st = Ok (tt, st') -> exists cs, spost st st' cs.
+Proof.
+  induction fuel as [|f IH]; intros l st st' Hl Hs Hk Hb H; [discriminate H|]. cbn [jmsg_children] in H.
+  destruct l as [|x r]; [jinv H; exists []; apply spost_nil; assumption|].
+  inversion Hl as [|? ? Hx Hr]; subst. apply bind_inv in H. destruct H as (u & st1 & H1 & H2). units.
+  assert (P1 : exists c1, spost st st1 c1).
+  { inversion Hx; subst.
+    - destruct (IHs _ H st st1 Hs Hk Hb H1) as (c & P). exists c. exact P.
+    - destruct (IHs _ H st st1 Hs Hk Hb H1) as (c & P). exists c. exact P.
+    - (* plural *)
+      destruct (oke_some _ H) as (i & Hc).
+      apply bind_inv in H1. destruct H1 as (u1 & t1 & G1 & H1). apply bind_inv in H1. destruct H1 as (u2 & t2 & G2 & H1).
+      apply bind_inv in H1. destruct H1 as (u3 & t3 & G3 & H1). apply bind_inv in H1. destruct H1 as (u4 & t4 & G4 & H1).
+      apply bind_inv in H1. destruct H1 as (u5 & t5 & G5 & H1). apply bind_inv in H1. destruct H1 as (u6 & t6 & G6 & H1).
+      apply bind_inv in H1. destruct H1 as (u7 & t7 & G7 & H1). apply bind_inv in H1. destruct H1 as (u8 & t8 & G8 & H1).
+      apply bind_inv in H1. destruct H1 as (u9 & t9 & G9 & H1). apply bind_inv in H1. destruct H1 as (u10 & t10 & G10 & H1).
+      apply bind_inv in H1. destruct H1 as (u11 & t11 & G11 & G12). units.
+      jinv G1. jinv G2. jinv G4. unfold indent_inc in G5. jinv G5. jinv G7. unfold indent_inc in G8. jinv G8.
+      unfold indent_dec in G10. jinv G10. unfold indent_dec in G11. jinv G11. jinv G12. ihe Hc G3.
+      (* the cases *)
+      assert (Pc : forall cs0 sa sb, Forall mq_ok cs0 -> scope_ok (j_scope sa) -> called_ok fmt sa -> buf_ok (j_buf sa) ->
+                (fix go (cs : list node) : J unit := match cs with [] => jret tt | c :: cr => plural_case_body (jmsg_children w f) c ;;; go cr end) cs0 sa = Ok (tt, sb) ->
+                exists c, ext sa sb c /\ scope_ok (j_scope sb) /\ j_buf sb = j_buf sa /\ called_ok fmt sb /\
+                  forall m d s, label_ready m -> exists m', label_ready m' /\ emits md c m (KBlock (BSwitch d) :: s) m' (KBlock (BSwitch d) :: s) []).
+      { induction cs0 as [|c0 cs0 IHc]; intros sa sb Hcs Hsa Hka Hba Hgo.
+        - jinv Hgo. exists []. split; [apply ext_refl; reflexivity|]. repeat (split; [auto|]). intros m d s Hm. exists m. split; [exact Hm|apply emits_nil].
+        - inversion Hcs as [|? ? Hc0 Hcs']; subst. apply bind_inv in Hgo. destruct Hgo as (v1 & sm & Hb1 & Hgo). units.
+          inversion Hc0; subst; try (cbn [plural_case_body] in Hb1; discriminate Hb1);
+            [|match goal with X : match ?c with _ => _ end |- _ => destruct c; try contradiction; cbn [plural_case_body] in Hb1; discriminate Hb1 end].
+          cbn [plural_case_body] in Hb1.
+          apply bind_inv in Hb1. destruct Hb1 as (w1 & r1 & F1 & Hb1). apply bind_inv in Hb1. destruct Hb1 as (w2 & r2 & F2 & Hb1).
+          apply bind_inv in Hb1. destruct Hb1 as (w3 & r3 & F3 & Hb1). apply bind_inv in Hb1. destruct Hb1 as (w4 & r4 & F4 & F5). units.
+          jinv F1. unfold indent_inc in F2. jinv F2. jinv F4. unfold indent_dec in F5. jinv F5.
+          match type of F3 with _ _ _ _ ?sx = Ok (tt, ?sy) =>
+            destruct (IH body sx sy ltac:(assumption) ltac:(proj; assumption) ltac:(unfold called_ok in *; proj; assumption) ltac:(proj; assumption) F3) as (cb & Eb & Cb & Sb & Bb & Kb) end. proj.
+          match type of Hgo with _ _ ?sx = _ =>
+            destruct (IHc sx sb Hcs' ltac:(proj; assumption) ltac:(unfold called_ok in *; proj; assumption) ltac:(proj; congruence) Hgo) as (cr & Er & Sr & Br & Kr & Rr) end. proj.
+          eexists. split; [eapply ext_trans; [|exact Er]; eapply ext_w1; [reflexivity|]; eapply ext_upd; eapply ext_trans; [|exact Eb]; eapply ext_w1; [reflexivity|]; eapply ext_upd; apply ext_refl; reflexivity|].
+          split; [exact Sr|]. split; [congruence|]. split; [exact Kr|].
+          intros m d s Hm. destruct (Cb false (KBlock (BSwitch d) :: s)) as (eb & Qb). destruct (Rr (MStmt false) d s ltac:(right; eauto)) as (m' & Hm' & Qr).
+          exists m'. split; [exact Hm'|]. norm_app2.
+          eapply emits_cons0; [ssingle|]. eapply emits_cons0; [eapply emits_toks1; [vm_compute; reflexivity|]; destruct Hm as [->|[e0 ->]]; reflexivity|].
+          eapply emits_cons0; [apply emits_num_Z|]. eapply emits_cons0; [ssingle|]. eapply emits_cons0; [ssingle|].
+          eapply emits_app0; [exact Qb|]. eapply emits_cons0; [ssingle|]. eapply emits_cons0; [eapply emits_toks1; [vm_compute; reflexivity|reflexivity]|].
+          eapply emits_cons0; [ssingle|]. exact Qr. }
+      match type of G6 with _ _ ?sa = Ok (tt, ?sb) =>
+        destruct (Pc cases sa sb ltac:(assumption) ltac:(proj; congruence) ltac:(unfold called_ok in *; proj; assumption) ltac:(proj; congruence) G6) as (c6 & E6 & S6 & B6 & K6 & R6) end. proj.
+      match type of G9 with _ _ _ _ ?sa = Ok (tt, ?sb) =>
+        destruct (IH dflt sa sb ltac:(assumption) ltac:(proj; assumption) ltac:(unfold called_ok in *; proj; assumption) ltac:(proj; congruence) G9) as (c9 & E9 & C9 & S9 & B9 & K9) end. proj.
+      eexists. split; [|split; [|split; [keep|split; [keep|keep]]]].
+      + eapply ext_upd. eapply ext_w1; [reflexivity|]. eapply ext_w1; [reflexivity|]. eapply ext_trans; [|exact E9]. eapply ext_w1; [reflexivity|]. eapply ext_upd.
+        eapply ext_trans; [|exact E6]. ext_build.
+      + intros e s. destruct (R6 MSwStart false s ltac:(left; reflexivity)) as (m6 & Hm6 & Q6). destruct (C9 false (KBlock (BSwitch true) :: s)) as (e9 & Q9). exists false.
+        norm_app2. eapply emits_cons0; [ssingle|]. eapply emits_cons0; [ssingle|]. eapply emits_app0; [apply C|]. eapply emits_cons0; [ssingle|]. eapply emits_cons0; [ssingle|].
+        eapply emits_app0; [exact Q6|]. eapply emits_cons0; [ssingle|].
+        eapply emits_cons0; [eapply emits_toks1; [vm_compute; reflexivity|]; destruct Hm6 as [->|[e6 ->]]; reflexivity|]. eapply emits_cons0; [ssingle|].
+        eapply emits_app0; [exact Q9|]. eapply emits_cons0; [ssingle|]. eapply emits_cons0; [ssingle|]. ssingle.
+    - (* a plural case outside a plural: nothing is written *) jinv H1. exists []. apply spost_nil; assumption.
+    - jinv H1. exists []. apply spost_nil; assumption.
+    - destruct x; try contradiction; jinv H1; exists []; apply spost_nil; assumption. }
+  destruct P1 as (c1 & P1). pose proof P1 as (E1 & C1 & S1 & B1 & K1).
+  destruct (IH r st1 st' Hr S1 K1 ltac:(rewrite B1; exact Hb) H2) as (c2 & P2). exists (c1 ++ c2). eapply spost_trans; eauto.
+Qed.
+
+(* ---- messages with a bundle ---- *)
+Lemma find_ph_ok fuel : forall q name bd, Forall mq_ok q -> jfind_placeholder fuel q name = Ok (Some bd) -> stmt_chk fmt fk bd = true.
+Proof.
+  induction fuel as [|f IH]; intros q name bd Hq H; [discriminate H|]. cbn [jfind_placeholder] in H.
+  destruct q as [|x r]; [discriminate H|]. inversion Hq as [|? ? Hx Hr]; subst.
+  inversion Hx; subst.
+  - eapply IH; eauto.
+  - destruct (bstr_eqb nm name); [inversion H; subst; assumption|eapply IH; eauto].
+  - eapply IH; [|exact H]. apply Forall_app. split; [exact Hr|]. apply Forall_app. split; [assumption|]. constructor; [apply mq_list; assumption|constructor].
+  - eapply IH; [|exact H]. apply Forall_app. split; [exact Hr|]. constructor; [apply mq_list; assumption|constructor].
+  - eapply IH; [|exact H]. apply Forall_app. split; assumption.
+  - destruct x; try contradiction; eapply IH; eauto.
+Qed.
+
+Lemma find_plural_ok body var x : Forall mq_ok body -> jfind_plural body var = Some x ->
+  exists p vn v cases dflt, x = NMsgPlural p vn v cases dflt /\ oke v = true.
+Proof.
+  induction body as [|y body IH]; intros Hb H; [discriminate H|]. inversion Hb as [|? ? Hy Hr]; subst. cbn [jfind_plural] in H.
+  destruct y; try (apply IH; assumption).
+  destruct (bstr_eqb varname var); [|apply IH; assumption]. inversion H; subst. inversion Hy; subst; [|contradiction]. eauto 10.
+Qed.
+
+Lemma lift_inv {A} (r : outcome A) st x st' : jlift r st = Ok (x, st') -> r = Ok x /\ st' = st.
+Proof. unfold jlift. destruct r; intro H; inversion H; auto. Qed.
+
+Fixpoint jmpart_ind' (P : jmpart -> Prop) (Hraw : forall t, P (JMRaw t)) (Hph : forall n, P (JMPh n))
+  (Hpl : forall v cases, Forall (Forall P) cases -> P (JMPlural v cases)) (p : jmpart) : P p :=
+  match p with
+  | JMRaw t => Hraw t
+  | JMPh n => Hph n
+  | JMPlural v cases =>
+      Hpl v cases ((fix go (cs : list (list jmpart)) : Forall (Forall P) cs :=
+                      match cs with
+                      | [] => Forall_nil _
+                      | c :: r => Forall_cons _ ((fix go2 (ps : list jmpart) : Forall P ps :=
+                                                    match ps with
+                                                    | [] => Forall_nil _
+                                                    | q :: qr => Forall_cons _ (jmpart_ind' P Hraw Hph Hpl q) (go2 qr)
+                                                    end) c) (go r)
+                      end) cases)
+  end.
+
+Definition part_post (body : list node) (p : jmpart) : Prop :=
+  forall st st', scope_ok (j_scope st) -> called_ok fmt st -> buf_ok (j_buf st) -> jeval_part w body p st = Ok (tt, st') -> exists cs, spost st st' cs.
+
+Lemma part_post_all body : Forall mq_ok body -> forall p, part_post body p.
+Proof.
+  intros Hbody. apply jmpart_ind'.
+  - (* raw *) intros t st st' Hs Hk Hb H. cbn [jeval_part] in H. destruct (post_raw t st st' Hs Hk Hb H) as (cs & P). exists cs. exact P.
+  - (* placeholder *) intros name st st' Hs Hk Hb H. cbn [jeval_part] in H. apply bind_inv in H. destruct H as (ph & st1 & H1 & H2).
+    apply lift_inv in H1. destruct H1 as [Hf ->]. destruct ph as [phbody|]; [|discriminate H2].
+    pose proof (find_ph_ok _ _ _ _ Hbody Hf) as Hc. destruct (IHs _ Hc st st' Hs Hk Hb H2) as (cs & P). exists cs. exact P.
+  - (* plural *) intros var cases IHc st st' Hs Hk Hb H. cbn [jeval_part] in H.
+    destruct (jfind_plural body var) as [x|] eqn:Ef; [|discriminate H].
+    destruct (find_plural_ok _ _ _ Hbody Ef) as (p0 & vn & v & cs0 & dflt & -> & Hv). destruct (oke_some _ Hv) as (i & Hc).
+    apply bind_inv in H. destruct H as (u1 & t1 & G1 & H). apply bind_inv in H. destruct H as (u2 & t2 & G2 & H).
+    apply bind_inv in H. destruct H as (u3 & t3 & G3 & H). apply bind_inv in H. destruct H as (u4 & t4 & G4 & H).
+    apply bind_inv in H. destruct H as (u5 & t5 & G5 & H). apply bind_inv in H. destruct H as (u6 & t6 & G6 & H).
+    apply bind_inv in H. destruct H as (u7 & t7 & G7 & G8). units.
+    jinv G1. jinv G2. jinv G4. unfold indent_inc in G5. jinv G5. unfold indent_dec in G7. jinv G7. jinv G8. ihe Hc G3.
+    (* the parts of one case *)
+    assert (Pp : forall ps sa sb, Forall (part_post body) ps -> scope_ok (j_scope sa) -> called_ok fmt sa -> buf_ok (j_buf sa) ->
+              (fix parts_loop (ps : list jmpart) : J unit := match ps with [] => jret tt | q :: qr => jeval_part w body q ;;; parts_loop qr end) ps sa = Ok (tt, sb) ->
+              exists c, spost sa sb c).
+    { induction ps as [|q qr IHq]; intros sa sb Hps Hsa Hka Hba Hl.
+      - jinv Hl. exists []. apply spost_nil; assumption.
+      - inversion Hps as [|? ? Hq Hqr]; subst. apply bind_inv in Hl. destruct Hl as (v1 & sm & L1 & L2). units.
+        destruct (Hq sa sm Hsa Hka Hba L1) as (c1 & P1). pose proof P1 as (E1 & C1 & S1 & B1 & K1).
+        destruct (IHq sm sb Hqr S1 K1 ltac:(rewrite B1; exact Hba) L2) as (c2 & P2). exists (c1 ++ c2). eapply spost_trans; eauto. }
+    (* the cases *)
+    assert (Pc : forall cs1 n0 sa sb, Forall (Forall (part_post body)) cs1 -> scope_ok (j_scope sa) -> called_ok fmt sa -> buf_ok (j_buf sa) ->
+              (fix cases_loop (i : N) (cs : list (list jmpart)) {struct cs} : J unit :=
+                 match cs with
+                 | [] => jret tt
+                 | c :: cr =>
+                     jsln [CText t_case; CNum (dec_of_N i); CText t_colon] ;;; indent_inc ;;;
+                     (fix parts_loop (ps : list jmpart) : J unit := match ps with [] => jret tt | q :: qr => jeval_part w body q ;;; parts_loop qr end) c ;;;
+                     jsln [CText t_break] ;;; indent_dec ;;; cases_loop (i + 1) cr
+                 end) n0 cs1 sa = Ok (tt, sb) ->
+              exists c, ext sa sb c /\ scope_ok (j_scope sb) /\ j_buf sb = j_buf sa /\ called_ok fmt sb /\
+                forall m d s, label_ready m -> exists m', label_ready m' /\ emits md c m (KBlock (BSwitch d) :: s) m' (KBlock (BSwitch d) :: s) []).
+    { induction cs1 as [|c1 cs1 IHc1]; intros n0 sa sb Hcs Hsa Hka Hba Hl.
+      - jinv Hl. exists []. split; [apply ext_refl; reflexivity|]. repeat (split; [auto|]). intros m d s Hm. exists m. split; [exact Hm|apply emits_nil].
+      - inversion Hcs as [|? ? Hc1 Hcs1]; subst.
+        apply bind_inv in Hl. destruct Hl as (w1 & r1 & F1 & Hl). apply bind_inv in Hl. destruct Hl as (w2 & r2 & F2 & Hl).
+        apply bind_inv in Hl. destruct Hl as (w3 & r3 & F3 & Hl). apply bind_inv in Hl. destruct Hl as (w4 & r4 & F4 & Hl).
+        apply bind_inv in Hl. destruct Hl as (w5 & r5 & F5 & F6). units.
+        jinv F1. unfold indent_inc in F2. jinv F2. jinv F4. unfold indent_dec in F5. jinv F5.
+        match type of F3 with _ _ ?sx = Ok (tt, ?sy) =>
+          destruct (Pp c1 sx sy Hc1 ltac:(proj; assumption) ltac:(unfold called_ok in *; proj; assumption) ltac:(proj; assumption) F3) as (cb & Eb & Cb & Sb & Bb & Kb) end. proj.
+        match type of F6 with _ _ _ ?sx = _ =>
+          destruct (IHc1 (n0 + 1) sx sb Hcs1 ltac:(proj; assumption) ltac:(unfold called_ok in *; proj; assumption) ltac:(proj; congruence) F6) as (cr & Er & Sr & Br & Kr & Rr) end. proj.
+        eexists. split; [eapply ext_trans; [|exact Er]; eapply ext_w1; [reflexivity|]; eapply ext_upd; eapply ext_trans; [|exact Eb]; eapply ext_w1; [reflexivity|]; eapply ext_upd; apply ext_refl; reflexivity|].
+        split; [exact Sr|]. split; [congruence|]. split; [exact Kr|].
+        intros m d s Hm. destruct (Cb false (KBlock (BSwitch d) :: s)) as (eb & Qb). destruct (Rr (MStmt false) d s ltac:(right; eauto)) as (m' & Hm' & Qr).
+        exists m'. split; [exact Hm'|]. norm_app2.
+        eapply emits_cons0; [ssingle|]. eapply emits_cons0; [eapply emits_toks1; [vm_compute; reflexivity|]; destruct Hm as [->|[e0 ->]]; reflexivity|].
+        eapply emits_cons0; [apply emits_num_N|]. eapply emits_cons0; [ssingle|]. eapply emits_cons0; [ssingle|].
+        eapply emits_app0; [exact Qb|]. eapply emits_cons0; [ssingle|]. eapply emits_cons0; [eapply emits_toks1; [vm_compute; reflexivity|reflexivity]|].
+        eapply emits_cons0; [ssingle|]. exact Qr. }
+    match type of G6 with _ _ _ ?sa = Ok (tt, ?sb) =>
+      destruct (Pc cases 0 sa sb IHc ltac:(proj; congruence) ltac:(unfold called_ok in *; proj; assumption) ltac:(proj; congruence) G6) as (c6 & E6 & S6 & B6 & K6 & R6) end. proj.
+    eexists. split; [|split; [|split; [keep|split; [keep|keep]]]].
+    + eapply ext_upd. eapply ext_w1; [reflexivity|]. eapply ext_trans; [|exact E6]. ext_build.
+    + intros e s. destruct (R6 MSwStart false s ltac:(left; reflexivity)) as (m6 & Hm6 & Q6). exists false.
+      norm_app2. eapply emits_cons0; [ssingle|]. eapply emits_cons0; [ssingle|]. eapply emits_app0; [apply C|]. eapply emits_cons0; [ssingle|]. eapply emits_cons0; [ssingle|].
+      eapply emits_app0; [exact Q6|]. eapply emits_cons0; [ssingle|]. eapply emits_cons0; [|ssingle].
+      eapply emits_toks1; [vm_compute; reflexivity|]. destruct Hm6 as [->|[e6 ->]]; reflexivity.
+Qed.
+
+Lemma parts_post body ps : Forall mq_ok body -> forall st st', scope_ok (j_scope st) -> called_ok fmt st -> buf_ok (j_buf st) ->
+  jeval_parts w body ps st = Ok (tt, st') -> exists cs, spost st st' cs.
+Proof.
+  intro Hb. induction ps as [|p ps IH]; intros st st' Hs Hk Hbf H; cbn [jeval_parts] in H.
+  - jinv H. exists []. apply spost_nil; assumption.
+  - apply bind_inv in H. destruct H as (u & st1 & H1 & H2). units.
+    destruct (part_post_all body Hb p st st1 Hs Hk Hbf H1) as (c1 & P1). pose proof P1 as (E1 & C1 & S1 & B1 & K1).
+    destruct (IH st1 st' S1 K1 ltac:(rewrite B1; exact Hbf) H2) as (c2 & P2). exists (c1 ++ c2). eapply spost_trans; eauto.
+Qed.
+
+Lemma post_msg id body : forallb (mq_chk oke (stmt_chk fmt fk) fk) body = true -> stmt_post0 (visit_msg o w id body).
+Proof.
+  intros Hc st st' Hs Hk Hb H.
+  assert (Hbody : Forall mq_ok body). { rewrite forallb_forall in Hc. apply Forall_forall. intros x Hx. eapply mq_chk_ok. apply Hc. exact Hx. }
+  unfold visit_msg in H.
+  assert (G : (exists cs, spost st st' cs)).
+  { destruct (o_msgs o) as [msgs|]; [destruct (assoc_n id msgs) as [parts|]|].
+    - eapply parts_post; eauto.
+    - eapply children_post; eauto.
+    - eapply children_post; eauto. }
+  destruct G as (cs & P). exists cs. exact P.
+Qed.
+
 Lemma stmt_lift (m : J unit) c : stmt_post0 m ->
   forall st st', scope_ok (j_scope st) -> called_ok fmt st -> buf_ok (j_buf st) -> m (jset_cur c st) = Ok (tt, st') ->
   exists cs, ext st st' cs /\ stmtC fmt cs /\ scope_ok (j_scope st') /\ j_buf st' = j_buf st /\ called_ok fmt st'.
@@ -797,6 +1027,7 @@ Proof.
     exact (stmt_lift _ _ (post_call _ _ _ _ H1 H2 H3 H4) st st' Hs Hk Hb H).
   - (* let value *) apply andb_prop in Hc. destruct Hc as [H1 H2]. exact (stmt_lift _ _ (post_letvalue _ _ H1 H2) st st' Hs Hk Hb H).
   - (* let content *) apply andb_prop in Hc. destruct Hc as [H1 H2]. exact (stmt_lift _ _ (post_letcontent _ _ H1 H2) st st' Hs Hk Hb H).
+  - (* msg *) exact (stmt_lift _ _ (post_msg _ _ Hc) st st' Hs Hk Hb H).
   - (* msg html tag *) exact (stmt_lift _ _ (post_raw _) st st' Hs Hk Hb H).
 Qed.
 End Stmt.
